@@ -9,7 +9,9 @@ Instrumented points (every one of them *parks* the calling thread / coroutine un
   * `Repository._write_file_part` — parks inside the per-file critical section (so overlapping writers are forced if possible);
   * the chunk producer — parks inside its first `chunk_queue.put` call for every chunk, i.e. after the producer's own abort test
     (`replicat.repository.queue.Queue` is replaced by `RecQueue`).
-Observed without parking: slot acquisitions/releases (`RecSlots`, a subclass of `asyncio.PriorityQueue` installed as
+Virtual time (c09_vtime.py): finite waits issued by replicat code get a deadline on the controller's virtual clock; the action
+`TICK` (offered while nothing but transfers is enabled) lets the earliest one expire — an arbitrarily slow backend without sleeping.
+Observed without parking: slot requests / acquisitions / releases (`RecSlots`, a subclass of `asyncio.PriorityQueue` installed as
 `repo._slots`), queue put/get/poll and the workers' loop test, executor jobs (`RecExecutor`), finalisations.
 
 Every parked point has a time-out; a schedule in which nothing is enabled and the operation is not over is reported as `hang`
@@ -32,6 +34,7 @@ import types
 from concurrent.futures import ThreadPoolExecutor as _TPE
 
 from . import runner as R
+from . import c09_vtime as VT
 
 
 class SchedTeardown(RuntimeError):
@@ -44,6 +47,7 @@ class InjectedFault(OSError):
 
 TRANSFERS = ('exists', 'upload', 'upload_stream', 'download', 'download_stream', 'delete')
 WAIT = ('~wait',)
+TICK = VT.TICK          # the virtual clock advances to the next deadline of a finite wait (c09_vtime.py)
 
 
 class Parked:
@@ -149,7 +153,7 @@ class Listed:
 # ------------------------------------------------------------------------------------------------ controller
 class Controller:
     def __init__(self, strategy, concurrent, names=None, settle=0.004, block_after=0.03, hang_after=4.0, park_timeout=30.0,
-                 fail_at=None, gate_writes=True, gate_producer=True, gate_locks=True):
+                 fail_at=None, gate_writes=True, gate_producer=True, gate_locks=True, vtime=True):
         self.strategy = strategy
         self.n = concurrent
         self.names = dict(names or {})          # object name → stable label
@@ -202,6 +206,9 @@ class Controller:
         self.put_full_waits = 0                  # how many chunks found the queue full when the producer tried to queue them
         self.full_item = None
         self.blocked_stacks = None               # at a hang: thread name → innermost function names
+        self.vtime = vtime
+        self.vt = VT.VClock(self, enabled=vtime)  # virtual time: finite waits of replicat code expire by a scheduling decision
+        self.slots = None                        # the RecSlots queue of the operation (slot waiters are read from it)
 
     # ---- identities
     def agent(self):
@@ -337,7 +344,16 @@ class Controller:
                     continue
                 cands = sorted(a for a, p in self.parked.items() if p.enabled is None or p.enabled())
                 if not cands:
+                    if stall_since is not None and self.vt.may_force() and now - max(stall_since, self.last_event) > VT.FORCED_AFTER:
+                        # nothing is enabled, but somebody is in a finite wait: only the passage of time can move the run on
+                        self.decisions.append((TICK, 0))
+                        self.step += 1
+                        self.vt.tick(forced=True)
+                        stall_since = None
+                        continue
                     if self.op_done:
+                        if stall_since is None and self.vt.waits:
+                            stall_since = now
                         self.cv.wait(0.01)
                         continue
                     if stall_since is None:
@@ -351,6 +367,14 @@ class Controller:
                     self.cv.wait(0.005)
                     continue
                 stall_since = None
+                only_transfers = all(self.parked[c].kind == 'call' for c in cands)
+                if only_transfers:
+                    # a "latency window": the operation waits for the network only — this is where a finite wait can expire
+                    self.vt.windows_any += 1
+                    if self.slots is not None and len(getattr(self.slots, '_getters', ())) > 0:
+                        self.vt.windows += 1
+                if self.vt.offer(cands):
+                    cands.append(TICK)
                 if self.wait_useful():
                     cands.append(WAIT)
                 real = [c for c in cands if c != WAIT]
@@ -365,6 +389,10 @@ class Controller:
                     self.cv.wait(0.03)
                     self.last_event = time.monotonic() - self.settle
                     continue
+                if a == TICK:
+                    self.vt.tick()
+                    continue
+                self.vt.consecutive = 0
                 self.wait_streak = 0
                 p = self.parked.pop(a)
                 self.last_agent = a
@@ -650,7 +678,11 @@ class ParkLock:
             return r
         a = ctl.agent() or ('T', _threading.get_ident())
         self.ctx[a] = self._context(_frame or sys._getframe(1))
-        ctl.park(a, 'acq', self, enabled=lambda: self.owner is None)
+        if blocking and timeout is not None and timeout >= 0 and VT._virtual(ctl, 'Lock.acquire', timeout):
+            if VT.lock_timed(ctl, self, timeout, _frame or sys._getframe(1)) == 'timeout':
+                return False
+        else:
+            ctl.park(a, 'acq', self, enabled=lambda: self.owner is None)
         self._l.acquire()
         if self.owner != a:        # released by a mode change, not by a scheduling decision
             self.owner = a
@@ -724,6 +756,30 @@ class RecQueue(_queue.Queue):
                         ctl.park(ctl.agent() or ('P',), 'put', k)
                     finally:
                         ctl.producer_state = 'running'
+            if block and timeout is not None:
+                sup_put = super().put
+
+                def attempt(t, _item=item):
+                    try:
+                        sup_put(_item, True, t)
+                        return True, None
+                    except _queue.Full:
+                        if ctl.full_item != id(_item):
+                            ctl.full_item = id(_item)
+                            with ctl.cv:
+                                ctl.put_full_waits += 1
+                                ctl.log.append(('q_put_full', k))
+                        ctl.producer_state = 'waiting-full'
+                        return False, None
+                virtual, ok, _ = VT.queue_timed(ctl, self, 'Queue.put', timeout, attempt, sys._getframe(1))
+                if virtual:
+                    ctl.producer_state = 'running'
+                    if not ok:
+                        raise _queue.Full
+                    return None
+            elif block:
+                with ctl.cv:
+                    ctl.vt.note('Queue.put', None)
             if block:
                 # same meaning as `Queue.put(item, True, timeout)`; an untimed put is a loop of short attempts, so that a producer
                 # that waits for ever on a full queue (nobody is left to take a chunk) can be unwound once the hang is reported
@@ -793,14 +849,39 @@ class RecQueue(_queue.Queue):
             t.add_done_callback(ended)
         return w
 
+    def get(self, block=True, timeout=None):
+        ctl = self.ctl
+        if ctl is not None and block and ctl.mode == 'ctl':
+            if timeout is None:
+                with ctl.cv:
+                    ctl.vt.note('Queue.get', None)
+            else:
+                sup_get = super().get
+
+                def attempt(t):
+                    try:
+                        return True, sup_get(True, t)
+                    except _queue.Empty:
+                        return False, None
+                virtual, ok, val = VT.queue_timed(ctl, self, 'Queue.get', timeout, attempt, sys._getframe(1))
+                if virtual:
+                    if not ok:
+                        raise _queue.Empty
+                    return val
+        return super().get(block, timeout)
+
     def get_nowait(self):
-        try:
-            return super().get_nowait()
-        except _queue.Empty:
-            ctl = self.ctl
-            if ctl is not None:
-                ctl.rec('q_poll', self._task(), quiet=True)
-            raise
+        ctl = self.ctl
+        if ctl is not None:
+            # (the only consumer is the event-loop thread) an empty poll is logged under the queue's mutex, like the puts and gets:
+            # the log is a linearisation of the queue operations
+            with self.mutex:
+                if not self._qsize():
+                    w = self._task()
+                    with ctl.cv:
+                        ctl.log.append(('q_poll', w))
+                    raise _queue.Empty
+        return super().get_nowait()
 
     def empty(self):
         ctl = self.ctl
@@ -871,6 +952,16 @@ class RecSlots(asyncio.PriorityQueue):
     ctl = None
     armed = False
 
+    async def get(self):
+        if self.armed and self.ctl is not None:
+            self.ctl.rec('slot_req', self.empty())      # (a request that finds the queue empty has to wait)
+        try:
+            return await super().get()
+        except asyncio.CancelledError:
+            if self.armed and self.ctl is not None:
+                self.ctl.rec('slot_req_cancel')         # the request was abandoned (its waiter gave up / the operation is torn down)
+            raise
+
     def _get(self):
         item = super()._get()
         if self.armed and self.ctl is not None:
@@ -895,7 +986,8 @@ class Instrument:
         self.M = M
         self.saved = {k: getattr(M, k) for k in ('threading', 'queue', 'ThreadPoolExecutor')}
         CURRENT = self.ctl
-        M.threading = _NS(_threading, Lock=ParkLock)
+        M.threading = _NS(_threading, Lock=ParkLock, Event=VT.VEvent, Condition=VT.VCondition)
+        self.vt_saved = VT.install(self.ctl, M, _NS)
         M.queue = _NS(_queue, Queue=RecQueue)
         M.ThreadPoolExecutor = RecExecutor
         ctl, repo = self.ctl, self.repo
@@ -908,6 +1000,7 @@ class Instrument:
         q.armed = True
         self.old_slots = old
         repo._slots = q
+        ctl.slots = q
         repo.__dict__.pop('_default_backend_executor', None)
         # writes and finalisations (instance attributes; absent names are simply not observed)
         if hasattr(repo, '_write_file_part'):
@@ -946,6 +1039,7 @@ class Instrument:
         global CURRENT
         for k, v in self.saved.items():
             setattr(self.M, k, v)
+        VT.uninstall(self.M, self.vt_saved)
         CURRENT = None
         for nm in ('_write_file_part', 'restore_metadata'):
             self.repo.__dict__.pop(nm, None)
